@@ -365,7 +365,13 @@ def execute(binary, lines, fdir, np=None):
     return common.run_harness_parallel(binary, lines, nproc=np or nproc(), line_for_chunk=per_chunk, per_case_timeout=60.0)
 
 
-def signature_of(w):
+def signature_of(w, v):
+    """the verdict name; a sanitizer fault in the prefix sweep is qualified by its kind and innermost carquet frame"""
+    if w == "prefix:fault":
+        import re
+        m = re.search(r'kind \|-> "([^"]+)"', v.get("detail", ""))
+        if m:
+            return "prefix:fault:" + re.sub(r":(exit|sig)\d+", "", m.group(1))
     return w
 
 
@@ -578,7 +584,7 @@ def _run(chk, tier, replay, binary, fdir, extra_paths):
         ops, codec, page = meta.get(v["id"], (None, None, None))
         for w in sorted(v["why"]):
             alarms[w] = alarms.get(w, 0) + 1
-            chk.violation(signature_of(w), "history %s (codec=%s page=%s) run [%s]: event %s rejected by SinkTrace: %s %s" % (
+            chk.violation(signature_of(w, v), "history %s (codec=%s page=%s) run [%s]: event %s rejected by SinkTrace: %s %s" % (
                 v["id"], codec, page, v.get("run", ""), v["e"], sorted(v["why"]), v.get("detail", "")[:700]),
                 {"id": v["id"], "ops": ops, "codec": codec, "page": page, "run": v.get("run", ""), "event": v["e"],
                  "why": sorted(v["why"]), "detail": v.get("detail", "")})
